@@ -139,7 +139,8 @@ def derive(ctx, body, should_inline, depth=2):
         nb = Body(j, -1)
         ctx.facts.by_path[nb.path] = [nb]
         ctx.cg._scan(nb)
-        ctx.eff.direct[nb.path] = ctx.eff._scan(nb)
+        if getattr(ctx, "eff", None) is not None:
+            ctx.eff.direct[nb.path] = ctx.eff._scan(nb)
         all_inl += inl
         cur = nb
     return cur, all_inl
